@@ -11,8 +11,8 @@ HEADER = {"missing-options-row": "F10", "unsupported-version": "F11", "unsupport
           "repeated-term-without-previous": "F6"}
 
 
-def drain(integ: str, data: bytes):
-    """Drain parse_jelly_flat item by item; returns (items yielded, exception or None)."""
+def drain(integ: str, data, source=None):
+    """Drain parse_jelly_flat item by item; returns (items yielded, exception or None). `source`: a ready-made file object instead of BytesIO(data)."""
     if integ == "generic":
         from pyjelly.integrations.generic import parse as mod  # noqa: PLC0415
         conv = terms.item_from_generic
@@ -21,7 +21,7 @@ def drain(integ: str, data: bytes):
         conv = terms.item_from_rdflib
     got = []
     try:
-        for x in mod.parse_jelly_flat(io.BytesIO(data)):
+        for x in mod.parse_jelly_flat(source if source is not None else io.BytesIO(data)):
             got.append(conv(x))
     except Exception as ex:  # noqa: BLE001
         return got, f"{type(ex).__name__}: {str(ex)[:100]}"
